@@ -42,7 +42,7 @@ def make_case(seed, shard, i):
         prog = g.program(ncomp=r.randint(1, 4), scan=r.choice(lang.HEADERLESS_SCANS) if headerless else None)
         if headerless:
             prog["comps"] = [lang.index_headers(c) for c in prog["comps"]]
-        prog["comment"] = lang.random_mode_comment(r, 0.4, allow=("return-mode", "unmatched-mode", "validation-mode", "run-mode"))
+        prog["comment"] = lang.random_mode_comment(r, 0.4, allow=("return-mode", "unmatched-mode", "validation-mode", "run-mode", "print-mode"))
         members.append(lang.tolist(prog))
     rows = lang.data_rows(r, header_prob=0.0 if headerless else 0.85)
     if not any(len(x) for x in rows):
